@@ -96,6 +96,12 @@ CHECKS["C02"] = dict(engine="extract", design="4 C02", technique="TLA+ model che
 CHECKS["C17"] = dict(engine="extract", design="4 C17", technique="TLC-judged witness monitor (every textual metadata value occurs inside the citation's own or joint extent) on generated documents + Extract.tla",
    text=_ext + "every textual metadata value (pin cite, year, parties, antecedent, extra, publisher, month, day, supra volume, full-citation parenthetical) is a slice of the text inside the citation's full span "
               "or the joint extent of the citations that start at the same place.", note=EXT_NOTE)
+CHECKS["C04"] = dict(engine="eyecite", design="4 C04", technique="TLC trace validation of recorded whole sessions against Eyecite.tla (no action for a raised call) + NoRaise invariants of the component models",
+   text=("Eyecite.tla composes the public calls into the session a user runs (get_citations with a tokenizer / remove_ambiguous, merge of reference citations, resolve_citations, annotate_citations in three modes) "
+         "and has no action for a call that raises; the component models carry err = none invariants (Resolve, SpanUpdater, Annotate). Sessions are recorded on hostile documents (every ordered pair of "
+         "hostile fragments, citation x hostile fragment pairs, seeded hostile documents, character mutations) for Aho-Corasick and Hyperscan (reference tokenizer on a subsample) x plain / remove_ambiguous, "
+         "resolution, and annotation with the returned spans in the three modes, every call logged at its return on the error path too; TLC accepts a session iff every event is consumed."),
+   note="Trusted: TLC + Json; 'every Python string' is reached through the hostile closure of the fragment grammar, bounded in depth; non-raise rejections are reported as SPEC-DRIFT (C02/C03/C06 are judged by their own checks).")
 NA_REASON = "check not built yet (work in progress; see DESIGN.md section 10 build order)"
 checks = []
 for p in props:
@@ -131,6 +137,8 @@ m = {"version": 1,
               "serves_properties": ["C16"], "kind_free_text": "TLA+ spec, TLC model checking, database-exhaustive comparison groups, TLC trace validation"},
              {"name": "extract", "path": "spec/Extract.tla spec/MC_Extract.tla spec/Trace_Extract.tla harness/chk_extract.py harness/drv_extract.py harness/gendocs.py",
               "serves_properties": ["C02", "C17"], "kind_free_text": "TLA+ spec of the offset arithmetic, TLC model checking, TLC-judged monitors on real extraction results"},
+             {"name": "eyecite", "path": "spec/Eyecite.tla spec/Trace_Eyecite.tla harness/chk_pipeline.py harness/drv_extract.py harness/gendocs.py",
+              "serves_properties": ["C04"], "kind_free_text": "session composition spec, TLC model checking, TLC trace validation of recorded sessions"},
              {"name": "annotate", "path": "spec/Annotate.tla spec/SpanUpdater.tla spec/MC_Annotate.tla spec/MC_SpanUpdater.tla spec/Trace_Annotate.tla spec/Trace_SpanUpdater.tla harness/chk_annotate.py harness/drv_annotate.py",
               "serves_properties": ["C09", "C10", "C11"], "kind_free_text": "TLA+ spec, TLC model checking, configuration replay, TLC trace validation"}],
  "checks": checks,
